@@ -375,6 +375,9 @@ func callOnce(c *callCase, invoke func(ctx context.Context) (MalType, error)) (*
 	ctx := context.WithValue(context.Background(), callrec.CtxKey, rec.Token)
 	res, err := invoke(ctx)
 	callrec.Cur = &callrec.Rec{} // a late entry would not go unnoticed in the next case's log
+	if ve, isVE := res.(callrec.ValErr); isVE {
+		res = ve.V // the value of a shape whose value result is declared as `error`
+	}
 	return rec, res, err
 }
 
